@@ -45,7 +45,7 @@ import (
 	"honnef.co/go/tools/internal/verifx/vx"
 )
 
-const c10Rule = "variant = base package x {//lint:ignore, //lint:file-ignore} x placement (own line above every declaration/field/statement/case/continuation line; file top) x check list (length 1..2, both orders, over hit id, 2nd id on the line, missing id, wrong-case id, SA*, S*, *, U1000, disabled id) x {reason, none}, each x {-show-ignored, not}; non-trivial = the real binary suppressed >= 1 base problem or reported the directive itself"
+const c10Rule = "variant = base package x {//lint:ignore, //lint:file-ignore} x placement (own line above every declaration/field/statement/case/continuation line; file top) x check list (length 1..2, both orders, over hit id, 2nd id on the line, missing id, wrong-case id, SA*, S*, *, U1000, disabled id) x {reason, none}, plus two-directive variants (a line directive over {hit, miss, SA*, U1000} at every placement with a problem x a second directive: file-ignore at file top of the same/another check, or a line directive stacked above/below naming the same check/another check/*, or stacked without a reason), each x {-show-ignored, not}; non-trivial = the real binary suppressed >= 1 base problem or reported the directive itself"
 
 func (b *c10Base) prepare() {
 	if b.dirLines != nil {
@@ -85,6 +85,8 @@ type c10Module struct {
 	// results: [pkg][slot] problems, per show flag
 	real    [2][][][]c10Prob
 	skipped string
+	// unstable[pkg][slot]: the two cold runs of some flag setting disagree on this copy
+	unstable [][]bool
 }
 
 var c10FileRe = regexp.MustCompile(`^p(\d+)/v(\d{4})([a-z])\.go$`)
@@ -213,9 +215,20 @@ func c10RunModule(bin, root string, m *c10Module, res *vx.Result, deadline time.
 		return
 	}
 	gocache := filepath.Join(dir, "gocache")
+	m.unstable = make([][]bool, len(m.pkgs))
+	for i := range m.unstable {
+		m.unstable[i] = make([]bool, len(m.pkgs[i].Slots))
+	}
+	slotText := func(ps []c10Prob) string {
+		var l []string
+		for _, p := range ps {
+			l = append(l, p.String())
+		}
+		sort.Strings(l)
+		return strings.Join(l, "\n")
+	}
 	n := 0
 	for s, show := range []bool{false, true} {
-		var first string
 		for rep := 0; rep < 2; rep++ {
 			n++
 			if time.Now().After(deadline) {
@@ -225,7 +238,7 @@ func c10RunModule(bin, root string, m *c10Module, res *vx.Result, deadline time.
 			cache := filepath.Join(dir, fmt.Sprintf("sc%d", n))
 			os.MkdirAll(cache, 0o755)
 			t0 := time.Now()
-			r, raw, err := c10Invoke(bin, filepath.Join(dir, "m"), cache, gocache, show, m, deadline)
+			r, _, err := c10Invoke(bin, filepath.Join(dir, "m"), cache, gocache, show, m, deadline)
 			if n == 1 {
 				res.Count("ms_in_first_invocations_incl_go_build", time.Since(t0).Milliseconds())
 			} else {
@@ -242,11 +255,16 @@ func c10RunModule(bin, root string, m *c10Module, res *vx.Result, deadline time.
 				return
 			}
 			if rep == 0 {
-				first = raw
 				m.real[s] = r
-			} else if raw != first {
-				m.skipped = fmt.Sprintf("two cold runs of %s module %d (show=%v) differ (nondeterministic output, see C06)", m.mode, m.id, show)
-				return
+				continue
+			}
+			// self-identity, per copy: a copy whose two cold reports differ is not compared
+			for pi := range r {
+				for si := range r[pi] {
+					if slotText(r[pi][si]) != slotText(m.real[s][pi][si]) {
+						m.unstable[pi][si] = true
+					}
+				}
 			}
 		}
 	}
@@ -348,6 +366,48 @@ func c10Enumerate(b *c10Base, ref []c10Prob) (directives, controls, trailing []c
 	return
 }
 
+// c10EnumerateTwo lists the two-directive variants of a base: at every placement whose line has
+// a problem, a first line directive naming {the id that hits, an id that does not, the glob SA*,
+// U1000} (with a reason) is combined with a second directive from
+//   - //lint:file-ignore at the top of the file, of the same check / of another check,
+//   - a second //lint:ignore stacked directly above / directly below the first (both source
+//     orders), naming the same check / another check / a glob that covers everything (*),
+//
+// and, with the first directive naming the hitting id, a stacked second directive without a reason.
+func c10EnumerateTwo(b *c10Base, ref []c10Prob) []c10Variant {
+	b.prepare()
+	var out []c10Variant
+	for _, place := range b.places {
+		onLine := false
+		for _, p := range ref {
+			onLine = onLine || (p.Role == "d" && p.Line == place)
+		}
+		if !onLine {
+			continue
+		}
+		names := c10NameSet(b, ref, place)
+		hit, miss := names[0], names[1]
+		firsts := c10Dedupe([]string{hit, miss, "SA*", "U1000"})
+		for _, f := range firsts {
+			add := func(how, name string, reason bool) {
+				out = append(out, c10Variant{Base: b.Name, Kind: "ignore", Place: place, Names: []string{f}, Reason: true,
+					Second: &c10Second{How: how, Names: []string{name}, Reason: reason}})
+			}
+			add("file-top", hit, true)
+			add("file-top", miss, true)
+			for _, how := range []string{"above", "below"} {
+				add(how, hit, true)
+				add(how, miss, true)
+				add(how, "*", true)
+				if f == hit {
+					add(how, hit, false)
+				}
+			}
+		}
+	}
+	return out
+}
+
 // ---------------------------------------------------------------------------------------------
 // evaluation
 
@@ -379,16 +439,33 @@ type c10Eval struct {
 	permPairs                                int
 	nsample                                  int
 	deadline                                 time.Time
+	unstable                                 int
 }
 
 func c10Class(e c10Expect, v c10Variant, missing, extra []string) string {
 	has := func(l []string, s string) bool {
 		for _, x := range l {
-			if x == s {
+			if x == s || strings.HasPrefix(x, s+"@") {
 				return true
 			}
 		}
 		return false
+	}
+	dirs, _ := v.plan()
+	// does an unmatched-directive report among extra concern a directive that covers a problem?
+	coversSome := false
+	for _, x := range extra {
+		if x == c10TokUnmatched && len(dirs) > 0 && e.CoversBy[dirs[0].dirLine] > 0 {
+			coversSome = true
+		}
+		if strings.HasPrefix(x, c10TokUnmatched+"@") {
+			line, _ := strconv.Atoi(strings.TrimPrefix(x, c10TokUnmatched+"@"))
+			coversSome = coversSome || e.CoversBy[line] > 0
+		}
+	}
+	attached := 0
+	if len(dirs) > 0 {
+		attached = dirs[0].attached
 	}
 	code := func(s string) string {
 		f := strings.Split(s, ":")
@@ -397,9 +474,10 @@ func c10Class(e c10Expect, v c10Variant, missing, extra []string) string {
 		}
 		return s
 	}
-	lay := v.layout()
 	switch {
-	case has(extra, c10TokUnmatched) && e.Suppressed > 0:
+	case has(extra, c10TokUnmatched) && coversSome && v.Second != nil:
+		return "unmatched-reported-though-it-covers-a-problem"
+	case has(extra, c10TokUnmatched) && coversSome:
 		return "unmatched-reported-though-it-suppressed"
 	case has(extra, c10TokUnmatched):
 		return "unmatched-reported"
@@ -420,11 +498,11 @@ func c10Class(e c10Expect, v c10Variant, missing, extra []string) string {
 		switch {
 		case v.Kind == "comment" || v.Kind == "base":
 			return "control-changed:" + code(s)
-		case !v.Reason:
+		case !v.Reason || (v.Second != nil && !v.Second.Reason && v.Names[0] != v.Second.Names[0]):
 			return "noreason-suppresses:" + code(s)
 		case f[0] != "d":
 			return "suppressed-in-other-file:" + code(s)
-		case v.Kind == "ignore" && line != lay.attached:
+		case v.Kind == "ignore" && v.Second == nil && line != attached:
 			return "suppressed-on-other-line:" + code(s)
 		default:
 			return "suppressed-unnamed-check:" + code(s)
@@ -458,12 +536,20 @@ func c10Class(e c10Expect, v c10Variant, missing, extra []string) string {
 }
 
 // evalPkg compares every slot of one package with the model.
-func (ev *c10Eval) evalPkg(mode string, slots []c10Variant, real [2][][]c10Prob) {
+func (ev *c10Eval) evalPkg(mode string, slots []c10Variant, real [2][][]c10Prob, unstable []bool) {
 	res := ev.res
 	for si, v := range slots {
 		b := c10BaseByName(v.Base)
 		ref := ev.refs[v.Base]
 		vkey := v.key()
+		if unstable != nil && unstable[si] {
+			// two cold runs gave different reports for this copy: nondeterminism, reported as a note
+			ev.unstable++
+			if ev.unstable <= 3 {
+				res.Note("%s (%s mode): two cold runs differ (nondeterministic output, see C06); not compared", vkey, mode)
+			}
+			continue
+		}
 		if v.Kind != "base" {
 			ev.states[vkey] = true
 		}
@@ -489,12 +575,12 @@ func (ev *c10Eval) evalPkg(mode string, slots []c10Variant, real [2][][]c10Prob)
 			}
 			flagged := false
 			for _, x := range c10Normalise(got, v, show, false) {
-				if x == c10TokUnmatched || x == c10TokMalformed {
+				if strings.HasPrefix(x, c10TokUnmatched) || x == c10TokMalformed {
 					flagged = true
 					nontrivial = true
 				}
 			}
-			norm := c10Normalise(got, v, show, e.Unmatched == c10Either)
+			norm := c10NormaliseFor(got, v, show, e)
 			ok := false
 			for _, alt := range e.Alts {
 				if c10Equal(alt, norm) {
@@ -503,19 +589,22 @@ func (ev *c10Eval) evalPkg(mode string, slots []c10Variant, real [2][][]c10Prob)
 			}
 			// measured non-triviality: a base problem is gone or ignored in the real report
 			if v.Kind == "ignore" || v.Kind == "file-ignore" {
-				base := c10Model(b, ref, c10Variant{Base: v.Base, Kind: "comment", Place: v.Place, Reason: true}, false, ev.enabled)
+				var base []string
+				for _, p := range e.Moved {
+					base = append(base, p.String())
+				}
 				var plain []string
 				for _, p := range got {
 					if p.Sev != "ignored" {
 						plain = append(plain, p.String())
 					}
 				}
-				if miss, _ := c10Diff(base.Alts[0], plain); len(miss) > 0 {
+				if miss, _ := c10Diff(base, plain); len(miss) > 0 {
 					nontrivial = true
 				}
 			}
 			// statistics of the unasserted readings
-			if !show && v.Kind == "ignore" && v.Reason && e.Unmatched == c10Either && !e.MaybeU1000 {
+			if !show && v.Second == nil && v.Kind == "ignore" && v.Reason && e.Unmatched == c10Either && !e.MaybeU1000 {
 				u := false
 				for _, n := range v.Names {
 					u = u || c10Glob(n, "U1000", true)
@@ -531,7 +620,7 @@ func (ev *c10Eval) evalPkg(mode string, slots []c10Variant, real [2][][]c10Prob)
 					ev.globOnlyQuiet++
 				}
 			}
-			if !show && v.Kind == "ignore" && !v.Reason && flagged {
+			if !show && v.Second == nil && v.Kind == "ignore" && !v.Reason && flagged {
 				for _, x := range c10Normalise(got, v, show, false) {
 					if x == c10TokUnmatched {
 						ev.noReasonUnmatched++
@@ -553,13 +642,26 @@ func (ev *c10Eval) evalPkg(mode string, slots []c10Variant, real [2][][]c10Prob)
 			}
 			missing, extra := c10Diff(e.Alts[0], norm)
 			class := c10Class(e, v, missing, extra) + "/" + v.Kind
+			if v.Second != nil {
+				class += "+" + v.Second.How
+			}
 			key := "C10:" + class + ":" + vkey
 			if show {
 				key += "/show-ignored"
 			}
 			var src string
 			if v.Kind != "base" {
-				src = fmt.Sprintf("\ncomment %q on line %d of file %s of base %s", v.text(), v.layout().dirLine, b.DirRole, b.Name)
+				dirs, _ := v.plan()
+				for i, d := range dirs {
+					txt := v.text()
+					if i == 1 {
+						txt = v.secondText()
+					}
+					src += fmt.Sprintf("\ncomment %q on line %d of file %s of base %s", txt, d.dirLine, b.DirRole, b.Name)
+				}
+				if len(dirs) == 0 {
+					src = fmt.Sprintf("\ncomment %q above line %d of file %s of base %s", v.text(), v.Place, b.DirRole, b.Name)
+				}
 			}
 			ev.findings = append(ev.findings, c10Finding{vkey: vkey, show: show, class: class, key: key, mode: mode, pkg: slots, slots: []c10Variant{v},
 				msg: fmt.Sprintf("%s (%s mode, -show-ignored=%v): the real report differs from the model%s\nexpected but not reported: %v\nreported but not expected: %v",
@@ -704,6 +806,11 @@ func TestVerifC10(t *testing.T) {
 		return
 	}
 	for i, b := range c10Bases {
+		if baseMod.unstable[i][0] {
+			res.Note("base %s: two cold runs differ (nondeterministic output, see C06)", b.Name)
+			res.NotExhaustive("base report unusable")
+			return
+		}
 		ref := baseMod.real[0][i][0]
 		ev.refs[b.Name] = ref
 		a, _ := json.Marshal(baseMod.real[0][i][0])
@@ -765,9 +872,14 @@ func TestVerifC10(t *testing.T) {
 		}
 		return true
 	}
-	var singles, pairs, controls, trailing []c10Variant
+	var singles, pairs, controls, trailing, twosA, twosRest []c10Variant
 	total := 0
 	for _, b := range c10Bases {
+		if tw := c10EnumerateTwo(b, ev.refs[b.Name]); b.Name == "A" {
+			twosA = tw
+		} else {
+			twosRest = append(twosRest, tw...)
+		}
 		d, c, tr := c10Enumerate(b, ev.refs[b.Name])
 		total += len(d)
 		for _, v := range d {
@@ -785,7 +897,9 @@ func TestVerifC10(t *testing.T) {
 	}
 	// order: all single-name variants (base by base, reason before none), the controls, then the
 	// pairs; the representative of a class of disagreements is its first variant in this order
-	first := append(append(append([]c10Variant(nil), singles...), controls...), trailing...)
+	// the two-directive variants of base A go first, those of B and C after the controls
+	first := append(append(append(append(append([]c10Variant(nil), twosA...), singles...), controls...), trailing...), twosRest...)
+	res.Count("variants_two_directives", int64(len(twosA)+len(twosRest)))
 	all := append(append([]c10Variant(nil), first...), pairs...)
 	res.Count("variants_directive_in_full_space", int64(total))
 	res.Count("variants_directive", int64(len(singles)+len(pairs)))
@@ -814,6 +928,12 @@ func TestVerifC10(t *testing.T) {
 		switch {
 		case v.Kind == "trailing":
 			continue
+		case v.Second != nil:
+			// two directives naming the same hitting id: base A in the quick tier, all bases in the thorough tier
+			same := v.Second.Reason && v.Second.Names[0] == v.Names[0] && v.Names[0] == c10NameSet(b, ev.refs[v.Base], v.Place)[0]
+			if !same || (v.Base != "A" && !vx.Thorough()) {
+				continue
+			}
 		case v.Kind != "comment" && v.Reason && v.Names[0] == c10NameSet(b, ev.refs[v.Base], v.Place)[0]:
 		case v.Kind != "comment" && v.Base == "A" && v.Place == b.places[len(b.places)-2]:
 		case vx.Thorough():
@@ -867,7 +987,7 @@ func (ev *c10Eval) runAndReport(bin, root string, mods []*c10Module, all []c10Va
 		}
 		modes[m.mode] = true
 		for pi, p := range m.pkgs {
-			ev.evalPkg(m.mode, p.Slots, [2][][]c10Prob{m.real[0][pi], m.real[1][pi]})
+			ev.evalPkg(m.mode, p.Slots, [2][][]c10Prob{m.real[0][pi], m.real[1][pi]}, m.unstable[pi])
 			if pkgOf[m.mode] == nil {
 				pkgOf[m.mode] = map[string][]c10Variant{}
 			}
@@ -879,6 +999,11 @@ func (ev *c10Eval) runAndReport(bin, root string, mods []*c10Module, all []c10Va
 	}
 	if skipped > 0 {
 		res.NotExhaustive(fmt.Sprintf("%d of %d modules not run within the time budget", skipped, len(mods)))
+	}
+	if ev.unstable > 0 {
+		res.Count("copies_not_self_identical", int64(ev.unstable))
+		res.NotExhaustive(fmt.Sprintf("%d copies gave different reports in two cold runs and were not compared", ev.unstable))
+		ev.unstable = 0
 	}
 	for _, mode := range []string{"packed", "isolated"} {
 		if modes[mode] {
@@ -932,7 +1057,7 @@ func (ev *c10Eval) runAndReport(bin, root string, mods []*c10Module, all []c10Va
 				c10RunModule(bin, root, m, res, time.Now().Add(5*time.Minute))
 				if m.skipped == "" {
 					for pi, p := range m.pkgs {
-						sub.evalPkg("isolated", p.Slots, [2][][]c10Prob{m.real[0][pi], m.real[1][pi]})
+						sub.evalPkg("isolated", p.Slots, [2][][]c10Prob{m.real[0][pi], m.real[1][pi]}, m.unstable[pi])
 					}
 					sub.evalPerm("isolated", f.slots, map[string][]c10Variant{})
 					for _, g := range sub.findings {
